@@ -3,8 +3,11 @@ package c12
 import (
 	"encoding/json"
 	"fmt"
+	"os"
+	"path/filepath"
 	"sort"
 	"strings"
+	"sync"
 	"testing"
 
 	"github.com/php-any/origami/data"
@@ -45,6 +48,31 @@ var ifaceNames = []string{"IA", "IB"}
 
 // classes that can also be defined inside `namespace App;` (name "App\\A")
 var nsNames = []string{"A", "B"}
+
+// classes that exist only as files on the class path (namespace fx12): resolvable on demand from every VM
+var loadables = []string{"fx12\\La", "fx12\\Lb"}
+
+var fx12Once sync.Once
+
+func fx12Dir() string {
+	dir := filepath.Join(filepath.Dir(os.Args[0]), "c12fx")
+	fx12Once.Do(func() {
+		os.MkdirAll(dir, 0o755)
+		for _, n := range []string{"La", "Lb"} {
+			p := filepath.Join(dir, n+".php")
+			text := fmt.Sprintf("<?php\nnamespace fx12;\nclass %s {\n  public function tag() { return \"%s\"; }\n}\n", n, n)
+			if b, err := os.ReadFile(p); err == nil && string(b) == text {
+				continue
+			}
+			tmp := fmt.Sprintf("%s.%d", p, os.Getpid())
+			if err := os.WriteFile(tmp, []byte(text), 0o644); err != nil {
+				panic(err)
+			}
+			os.Rename(tmp, p)
+		}
+	})
+	return dir
+}
 
 func allNames() []Def {
 	var out []Def
@@ -116,6 +144,11 @@ func gen(r *verifsim.Rng, tier string) (any, hx.Sched) {
 			}
 		case x < 9:
 			op.K = "shared"
+			if r.Intn(3) == 0 {
+				// resolve a class that exists only as a file on the class path, on demand, through this VM
+				op.K = "autoload"
+				op.Defs = []Def{{"class", verifsim.Pick(r, loadables)}}
+			}
 		default:
 			op.K = "discard"
 			if op.VM == 0 {
@@ -187,6 +220,8 @@ type sys struct {
 	tagOf  map[string]string
 	shared data.GetValue
 	svars  []data.Variable
+	// auto[v][name]: VM v (0 base) has autoloaded name
+	auto map[int]map[string]bool
 }
 
 func (s *sys) vm(i int) data.VM {
@@ -425,7 +460,8 @@ func exec(t *testing.T, x any, s hx.Sched) *hx.Outcome {
 	o := &hx.Outcome{}
 	var log []string
 	res := hx.RunBubble(t, s.Config(0), func(sim *verifsim.Sim) {
-		sy := &sys{env: hx.NewEnv(), tagOf: map[string]string{}, outs: map[string]string{}}
+		sy := &sys{env: hx.NewEnv(), tagOf: map[string]string{}, outs: map[string]string{}, auto: map[int]map[string]bool{}}
+		sy.env.VM.AddNamespace("fx12", fx12Dir())
 		sy.env.Capture()
 		sy.env.VM.AddFunc(&hx.GoFunc{Name: "__out", Params: []string{"r"}, Fn: func(ctx data.Context, a []data.Value) (data.GetValue, data.Control) {
 			sy.outs[verifsim.TaskName()] = hx.ValStr(a[0])
@@ -536,7 +572,21 @@ func step(o *hx.Outcome, w *W, sy *sys, m *model, k int, op Op, log *[]string, o
 				}
 			}
 		}
+	case "autoload":
+		name := op.Defs[0].Name
+		c, ctl := sy.vm(op.VM).GetOrLoadClass(name)
+		*log = append(*log, fmt.Sprintf("%d autoload vm%d %s -> found=%v %s", k, op.VM, name, c != nil && ctl == nil, first(hx.CtlStr(ctl))))
+		o.Probe("autoload_through_a_vm", 1)
+		if c == nil || ctl != nil {
+			o.Violate("C12/lost/autoload", fmt.Sprintf("step %d: vm%d cannot resolve %s, a class that exists as a file on the class path and that every VM could resolve on demand before: %s (history: %s)", k, op.VM, name, first(hx.CtlStr(ctl)), histStr(w, k)))
+			break
+		}
+		if sy.auto[op.VM] == nil {
+			sy.auto[op.VM] = map[string]bool{}
+		}
+		sy.auto[op.VM][name] = true
 	case "discard":
+		delete(sy.auto, op.VM)
 		sy.temps[op.VM-1] = runtime.NewTempVM(sy.env.VM).(*runtime.TempVM)
 		sy.temps[op.VM-1].PrepareParse(sy.env.P)
 		m.temps[op.VM-1] = table{}
@@ -629,6 +679,22 @@ func step(o *hx.Outcome, w *W, sy *sys, m *model, k int, op Op, log *[]string, o
 		for _, d := range names {
 			checkOne(o, w, m, k, v, d, sy.goLookup(v, d), "go")
 		}
+		// classes loaded on demand: registered (without loading) exactly where they were loaded
+		for _, name := range loadables {
+			c, ok := sy.vm(v).GetClass(name)
+			has := ok && c != nil
+			may := sy.auto[0][name] || sy.auto[v][name]
+			vmk := "temp"
+			if v == 0 {
+				vmk = "base"
+			}
+			if has && !may {
+				o.Violate("C12/leak/autoload/into-"+vmk, fmt.Sprintf("after step %d, vm%d has %s registered although only another VM loaded it (history: %s)", k, v, name, histStr(w, k)))
+			}
+			if !has && may {
+				o.Violate("C12/lost/autoloaded/"+vmk, fmt.Sprintf("after step %d, vm%d no longer has %s although it (or the base VM) loaded it (history: %s)", k, v, name, histStr(w, k)))
+			}
+		}
 	}
 }
 
@@ -639,6 +705,9 @@ func histStr(w *W, upto int) string {
 			break
 		}
 		s := fmt.Sprintf("%d:%s@vm%d", k, op.K, op.VM)
+		if op.K == "autoload" {
+			s += "[" + op.Defs[0].Name + "]"
+		}
 		if op.K == "def" {
 			var ds []string
 			for _, d := range op.Defs {
